@@ -564,27 +564,7 @@ func checkC10(p *Prog, r *Report) {
 
 	// ---- R10.3 start is atomic ----------------------------------------------------------------
 	r.Rule("R10.3", "The 'already started?' test and the start task are one critical section of muHaveStarted: concurrent start calls cannot both succeed.", 2)
-	if f := p.Fn("Agent.startConnectivityChecks"); r.Anchor("Agent.startConnectivityChecks", f != nil) {
-		runs := p.CallsTo(f, false, "taskloop.Loop.Run")
-		if len(runs) == 0 {
-			r.Fail("startConnectivityChecks: start task", p.Pos(f.Body.Pos()), "no loop task")
-		}
-		for _, c := range runs {
-			held := p.Locks(f).At(c)["Agent.muHaveStarted"]
-			r.Check(held, "startConnectivityChecks: start task under muHaveStarted", p.Pos(c.Pos()), "mutex held", "the start task is submitted without holding muHaveStarted: two concurrent starts can both pass the started test")
-			// the started test in the same function, under the lock, dominating the task
-			tested := false
-			walkBody(f, func(n ast.Node) bool {
-				if u, ok := n.(*ast.UnaryExpr); ok && u.Op == token.ARROW && p.IsField(u.X, "Agent.startedCh") {
-					if p.Locks(f).At(u)["Agent.muHaveStarted"] && u.Pos() < c.Pos() {
-						tested = true
-					}
-				}
-				return true
-			})
-			r.Check(tested, "startConnectivityChecks: started test in the same critical section", p.Pos(c.Pos()), "select on startedCh under the lock, before the task", "the already-started test is not made inside the same muHaveStarted critical section as the start task")
-		}
-	}
+	checkStartAtomic(p, r)
 
 	// ---- R10.4 results leave the loop by value --------------------------------------------------
 	r.Rule("R10.4", "Exported accessors hand results out of the loop only through variables assigned inside their task and read after Run returned without error.", 6)
@@ -728,4 +708,29 @@ func (p *Prog) aliasesLoopState(f *Func, e ast.Expr, depth int) string {
 		}
 	}
 	return ""
+}
+
+// checkStartAtomic: the started test and the start task are one critical section (C10 R10.3, shared with C04 R4.8).
+func checkStartAtomic(p *Prog, r *Report) {
+	if f := p.Fn("Agent.startConnectivityChecks"); r.Anchor("Agent.startConnectivityChecks", f != nil) {
+		runs := p.CallsTo(f, false, "taskloop.Loop.Run")
+		if len(runs) == 0 {
+			r.Fail("startConnectivityChecks: start task", p.Pos(f.Body.Pos()), "no loop task")
+		}
+		for _, c := range runs {
+			held := p.Locks(f).At(c)["Agent.muHaveStarted"]
+			r.Check(held, "startConnectivityChecks: start task under muHaveStarted", p.Pos(c.Pos()), "mutex held", "the start task is submitted without holding muHaveStarted: two concurrent starts can both pass the started test")
+			// the started test in the same function, under the lock, dominating the task
+			tested := false
+			walkBody(f, func(n ast.Node) bool {
+				if u, ok := n.(*ast.UnaryExpr); ok && u.Op == token.ARROW && p.IsField(u.X, "Agent.startedCh") {
+					if p.Locks(f).At(u)["Agent.muHaveStarted"] && u.Pos() < c.Pos() {
+						tested = true
+					}
+				}
+				return true
+			})
+			r.Check(tested, "startConnectivityChecks: started test in the same critical section", p.Pos(c.Pos()), "select on startedCh under the lock, before the task", "the already-started test is not made inside the same muHaveStarted critical section as the start task")
+		}
+	}
 }
